@@ -13,3 +13,4 @@ register_simp_attr keepsGen
 register_simp_attr keepsSucc
 register_simp_attr keepsPost
 register_simp_attr keepsKernel2
+register_simp_attr keepsRet
